@@ -93,6 +93,7 @@ structure Req where
   pc      : Pc
   incs    : Nat                       -- ghost: number of `countRequest(1)` executed
   hist    : List (HostId × Outcome)   -- ghost: every finished attempt
+  holder  : Option CfgId := none      -- dynamic upstreams: the holder of the current loop iteration
   deriving Repr
 
 inductive FSt
@@ -122,6 +123,7 @@ structure CfgSt where
   ups      : List (Key × HostId)   -- provisioned upstreams, in order
   held     : List Key              -- keys stored in the `hosts` pool and not yet deleted
   canceled : Bool
+  owner    : Option Nat := none   -- the request whose loop iteration this holder is (none = a provisioned handler)
   deriving Repr
 
 structure State where
@@ -171,18 +173,67 @@ inductive Action
   | finish (r : Nat) (out : Outcome)    -- reverseProxy returns or unwinds: deferred countRequest(-1)
   | after (r : Nat)                     -- proxyLoopIteration after reverseProxy returned
   | forget (i : Nat)                    -- forgetter i wakes up (timer or ctx.Done) and runs countFail(-1)
+  | newIter (r : Nat)                   -- a loop iteration of a handler with dynamic upstreams begins (its own pool holder)
   | tick
   deriving Repr
 
 def newFail (q : Req) (h : HostId) (now : Nat) (src : Option Outcome) : Fail :=
   { host := h, cfg := q.cfg, t0 := now, dur := q.par.failDur, src := src, st := .counted }
 
+/-- the Host the request is dealing with in the current loop iteration (none = between two
+    iterations, or past the loop: where proxyLoopIteration's deferred deletes have run) -/
+def Pc.hostOf : Pc → Option HostId
+  | .sending h => some h
+  | .strikeInc h => some h
+  | .exited h _ => some h
+  | .failInc h => some h
+  | _ => none
+
+/-- a request with dynamic upstreams can only be sent to an upstream its current iteration
+    provisioned (reverseproxy.go:496-521: Select runs over `dUpstreams`) -/
+def dynOk (s : State) (r : Nat) (q : Req) (h : HostId) : Bool :=
+  if q.par.dynamic then
+    match q.holder with
+    | some c =>
+      match s.cfgs[c]? with
+      | some cs => !cs.canceled && cs.owner == some r && cs.ups.any (·.2 == h)
+      | none => false
+    | none => false
+  else true
+
+/-- an iteration's holder ends (the deferred deletes start) only when its request is back at
+    the top of the loop or has left it; a handler's context can be cancelled at any time -/
+def ownerIdle (s : State) (cs : CfgSt) : Bool :=
+  match cs.owner with
+  | some r =>
+    match s.reqs[r]? with
+    | some q => q.pc.hostOf == none
+    | none => true
+  | none => true
+
 def stepDispatch (s : State) (r : Nat) (h : HostId) : Option State :=
   match s.reqs[r]? with
   | some q =>
     match q.pc with
-    | .start => some { s with reqs := s.reqs.set r { q with pc := .sending h, incs := q.incs + 1 },
-                              inflight := upd s.inflight h (s.inflight h + 1) }
+    | .start =>
+      if dynOk s r q h then
+        some { s with reqs := s.reqs.set r { q with pc := .sending h, incs := q.incs + 1 },
+                      inflight := upd s.inflight h (s.inflight h + 1) }
+      else none
+    | _ => none
+  | none => none
+
+/-- reverseproxy.go:494-509 — a loop iteration of a handler with dynamic upstreams begins: it is
+    going to provision what the source returns and is a pool holder of its own until it returns -/
+def stepNewIter (s : State) (r : Nat) : Option State :=
+  match s.reqs[r]? with
+  | some q =>
+    match q.pc with
+    | .start =>
+      if q.par.dynamic then
+        some { s with cfgs := s.cfgs ++ [{ par := q.par, ups := [], held := [], canceled := false, owner := some r }],
+                      reqs := s.reqs.set r { q with holder := some s.cfgs.length } }
+      else none
     | _ => none
   | none => none
 
@@ -277,7 +328,8 @@ def stepStore (s : State) (c : CfgId) (k : Key) : Option State :=
 
 def stepCancel (s : State) (c : CfgId) : Option State :=
   match s.cfgs[c]? with
-  | some cs => some { s with cfgs := s.cfgs.set c { cs with canceled := true } }
+  | some cs =>
+    if ownerIdle s cs then some { s with cfgs := s.cfgs.set c { cs with canceled := true } } else none
   | none => none
 
 /-- usagepool.go Delete: decrement, remove at zero; a missing key is ignored -/
@@ -337,6 +389,7 @@ def step (s : State) : Action → Option State
   | .finish r out => stepFinish s r out
   | .after r => stepAfter s r
   | .forget i => stepForget s i
+  | .newIter r => stepNewIter s r
   | .tick => some { s with now := s.now + 1 }
 
 def run (s : State) : List Action → Option State
